@@ -208,6 +208,32 @@ pub fn sanitise_twin(rng: &mut StdRng, name: &str) -> Option<String> {
     Some(out.into_iter().collect())
 }
 
+/// Degenerate but well-formed call sequences: nothing at all, only barriers, only thread-local systems,
+/// batches over such builders, (twice) the same unnamed controller type.
+pub fn gen_degenerate(rng: &mut StdRng) -> Prog {
+    let tiny = |rng: &mut StdRng| -> Vec<Op> {
+        match rng.gen_range(0..4) {
+            0 => vec![],
+            1 => (0..rng.gen_range(1..=3)).map(|_| Op::Barrier).collect(),
+            2 => (0..rng.gen_range(1..=3)).map(|i| Op::Tl { r: vec![i + 1], w: vec![] }).collect(),
+            _ => vec![Op::Barrier, Op::Tl { r: vec![], w: vec![1] }, Op::Barrier],
+        }
+    };
+    let mut ops = tiny(rng);
+    for _ in 0..rng.gen_range(0..=2) {
+        let ctl = rng.gen_range(0..4);
+        ops.push(Op::Batch { ctl, n: rng.gen_range(0..=2), multi: rng.gen_bool(0.4), inner: Prog { ops: tiny(rng) }, deps: vec![], t: 3, name: String::new() });
+        if rng.gen_bool(0.5) {
+            // a second unnamed batch with the same controller type
+            ops.push(Op::Batch { ctl, n: 1, multi: false, inner: Prog { ops: tiny(rng) }, deps: vec![], t: 3, name: String::new() });
+        }
+    }
+    if rng.gen_bool(0.3) {
+        ops.extend(tiny(rng));
+    }
+    Prog { ops }
+}
+
 /// Many systems funnelled into single groups: heavy anchor groups (so that appending keeps
 /// "improving the balance") and long runs of short writers of one resource.
 pub fn gen_funnel(rng: &mut StdRng) -> Prog {
